@@ -39,6 +39,8 @@ def cases(tier, seed):
             if not hs:
                 continue
             for sh in TLS_SHAPES:
+                if sh == "garbage_tail" and code in (0x0005, 0x0004):
+                    continue      # RC4 has no framing a 21-byte record could violate (see the quick-tier list below)
                 yield {"kind": "tls", "cls": -1, "vce": [v, code, etm], "shape": sh, "seed": seed}
     for ci in range(len(TLS_CLASSES)):
         for sh in TLS_SHAPES:
